@@ -5,6 +5,8 @@ All rules read the syn AST: the `is_bijection` / `is_unique` / `arity` arm table
 qv/c14_injective.py, the reduction of expr/bijection.rs, and the decision terms of Map::schema_exprs, Reduce::schema_aggregate,
 Join::schema (+ JoinOperator::{has_unique_constraint, expr_has_unique_constraint}) and Values::schema.
 """
+import re
+
 from . import facts
 from .core import Src, Anchor, find, walk, walk_guards, show, path_of, is_call_to, pat_binds
 from .flow import Taint
@@ -114,6 +116,50 @@ def arity_table(rep, src):
 # ------------------------------------------------------------------------------------------------ U1
 
 
+def unbuildable_casts(src):
+    """CastAsX variants that no relation can carry today: expr::implementation builds their range-propagation function with
+    data_type::function::cast(DataType::x()), and `cast` aborts (todo!) for that target type.  While this holds, a unique
+    column can never be mapped through them, so their presence in the bijection list cannot produce a wrongly-unique column."""
+    try:
+        cast = src.one_fn(name="cast", file="data_type/function.rs")
+    except Anchor:
+        return set()
+    ms = [m for m in find(cast.body, "match")]
+    if not ms:
+        return set()
+    handled, default_aborts = set(), False
+    for a in ms[0]["arms"]:
+        pats = a["pat"]["cases"] if a["pat"]["k"] == "or" else [a["pat"]]
+        aborts = a["body"]["k"] == "macro" and a["body"]["name"] in ("todo", "unimplemented", "panic", "unreachable")
+        for p in pats:
+            if p["k"] == "wild":
+                default_aborts = aborts
+            elif p["k"] in ("tuplestruct", "path"):
+                segs = p["path"]["segs"] if p["k"] == "tuplestruct" else p["segs"]
+                if segs[-2:-1] == ["DataType"] and not aborts:
+                    handled.add(segs[-1])
+    if not default_aborts:
+        return set()
+    out = set()
+    # implementation table: Function::CastAsX => ... function::cast(DataType::x()) ...
+    for f in src.fns:
+        pass
+    for (file, mod, it, t) in src.items:
+        if file == "expr/implementation.rs" and it["k"] == "macro" and it.get("name") == "function_implementations" and it.get("args"):
+            for m in find(it["args"][-1], "match"):
+                for a in m["arms"]:
+                    p = a["pat"]
+                    segs = p.get("segs") or (p.get("path") or {}).get("segs") or []
+                    if len(segs) >= 2 and segs[-2] == "Function" and segs[-1].startswith("CastAs"):
+                        for c in find(a["body"], "call"):
+                            if is_call_to(c, "function::cast") and c["args"] and c["args"][0]["k"] == "call":
+                                ctor = (path_of(c["args"][0]["f"]) or "").rsplit("::", 1)[-1]
+                                target = "".join(x.capitalize() for x in ctor.split("_"))
+                                if target not in handled:
+                                    out.add(segs[-1])
+    return out
+
+
 def u1(rep, src):
     rep.rule(
         "U1",
@@ -129,12 +175,16 @@ def u1(rep, src):
     isu = src.one_fn(name="is_unique", file=FN, self_ty="Function")
     ar = arity_table(rep, src)
     bij = bool_table(rep, "U1", isb, "Function", variants)
+    unbuildable = unbuildable_casts(src)
+    rep.extra["unbuildable_casts"] = sorted(unbuildable)
     if bij is not None:
         rep.extra["is_bijection"] = sorted(bij)
         for v in sorted(bij, key=variants.index if all(x in variants for x in bij) else None):
             rep.instance("U1", "is_bijection@" + v, {"variant": v, "arity": ar.get(v), "reviewed": INJECTIVE.get(v) or NOT_INJECTIVE.get(v)})
             if v in INJECTIVE:
                 pass
+            elif v in unbuildable:
+                rep.instance("U1", "is_bijection@%s@unbuildable" % v, {"variant": v, "exempt": "data_type::function::cast aborts for this target type: no relation can carry the operator (C18/P1); re-examined when it is implemented"}, nontrivial=False)
             elif v in NOT_INJECTIVE:
                 rep.violation("U1", "is_bijection@" + v, "Function::%s is listed as a bijection but is not injective: %s" % (v, NOT_INJECTIVE[v]), isb.where())
             else:
